@@ -74,6 +74,9 @@ fn main() {
                 }
             }
         }
+        Some("hooks") => {
+            writeln!(w, "{}", cases::hooks_state()).unwrap();
+        }
         Some("show") => {
             // pretty-print wire values given on stdin (one per line), for replay files
             let stdin = std::io::stdin();
